@@ -210,7 +210,12 @@ func (mbs *metadataPartStorage) AppendObject(ctx context.Context, bucketName sto
 		}
 
 		if existingObject != nil {
-			if versioningEnabled {
+			// Only the null version may be extended in place. When the current
+			// object is a real version (versioning enabled, or suspended after
+			// having been enabled) the append creates a new version and the
+			// existing version stays untouched.
+			createsNewVersion := versioningEnabled || (existingObject.VersionID != nil && *existingObject.VersionID != "null")
+			if createsNewVersion {
 				// The new version shares the unchanged prefix. Pre-acquiring registry
 				// references prevents a concurrent delete from condemning those parts.
 				allParts = make([]metadatastore.Part, 0, len(existingObject.Parts)+1)
